@@ -200,63 +200,75 @@ def _run_on_vloop(main: Callable[[VLoop], Any]) -> Any:
 
 
 def _direct(g: list[dict], ops: list[list] | None, chooser: Callable | None) -> tuple[list[str], dict, list[list]]:
+    """An op ["loop"] (only when every invocation has finished) continues on a fresh event loop with
+    the same manager: a manager outlives event loops (Workflow objects are reused across asyncio.run)."""
     from workflows.resource import ResourceDefinition
     from workflows.runtime.types import step_function as SF
 
-    info: dict[str, Any] = {"tasks": [], "events": []}
+    info: dict[str, Any] = {"tasks": [], "events": [], "loops": 1}
     done_ops: list[list] = []
+    w = World(g)
+    wf = SimpleNamespace(_resource_manager=w.manager)
+    lines: list[str] = []
+    st = {"i": 0, "more": True}
 
-    async def main(loop: VLoop) -> list[str]:
-        w = World(g)
+    async def invocation(tid: int, mode: str, reqs: list[int]) -> None:
+        CUR.set(tid)
+        rec = info["tasks"][tid]
+        outcome = "?"
+        try:
+            if mode == "b":
+                objs = [await w.manager.get(w.desc[reqs[0]])]
+            else:
+                cfg = SimpleNamespace(
+                    event_name="ev", context_parameter=None,
+                    resources=[ResourceDefinition(name=f"p{j}", resource=w.desc[r], type_annotation=Obj)
+                               for j, r in enumerate(reqs)])
+                fn = await SF.partial(func=lambda **kw: kw, step_config=cfg, event=None, context=None, workflow=wf)
+                objs = [fn.keywords.get(f"p{j}") for j in range(len(reqs))]
+            outcome = w.outcome(None, objs)
+            rec["objs"] = [getattr(o, "serial", None) for o in objs]
+            rec["obj_rids"] = [getattr(o, "rid", None) for o in objs]
+        except BaseException as e:  # noqa: BLE001 - classified; cancellation re-raised
+            outcome = w.outcome(e, None)
+            if isinstance(e, asyncio.CancelledError):
+                raise
+        finally:
+            if outcome != "cancelled":  # only the teardown cancels here
+                rec["outcome"] = outcome
+                w.events.append(f"fin:{tid}:{outcome}")
+
+    async def main(loop: VLoop) -> None:
         q = Quiesce(loop)
-        wf = SimpleNamespace(_resource_manager=w.manager)
+        offset = len(info["tasks"])  # invocations of earlier loops: all finished
         tasks: list[asyncio.Task] = []
-        lines: list[str] = []
-
-        async def invocation(tid: int, mode: str, reqs: list[int]) -> None:
-            CUR.set(tid)
-            rec = info["tasks"][tid]
-            outcome = "?"
-            try:
-                if mode == "b":
-                    objs = [await w.manager.get(w.desc[reqs[0]])]
-                else:
-                    cfg = SimpleNamespace(
-                        event_name="ev", context_parameter=None,
-                        resources=[ResourceDefinition(name=f"p{j}", resource=w.desc[r], type_annotation=Obj)
-                                   for j, r in enumerate(reqs)])
-                    fn = await SF.partial(func=lambda **kw: kw, step_config=cfg, event=None, context=None, workflow=wf)
-                    objs = [fn.keywords.get(f"p{j}") for j in range(len(reqs))]
-                outcome = w.outcome(None, objs)
-                rec["objs"] = [getattr(o, "serial", None) for o in objs]
-                rec["obj_rids"] = [getattr(o, "rid", None) for o in objs]
-            except BaseException as e:  # noqa: BLE001 - classified; cancellation re-raised
-                outcome = w.outcome(e, None)
-                if isinstance(e, asyncio.CancelledError):
-                    raise
-            finally:
-                if outcome != "cancelled":  # only the teardown cancels here
-                    rec["outcome"] = outcome
-                    w.events.append(f"fin:{tid}:{outcome}")
 
         def phases() -> str:
-            return "".join("D" if t.done() else ("S" if i in w.gates else "W") for i, t in enumerate(tasks))
+            return "D" * offset + "".join(
+                "D" if t.done() else ("S" if offset + i in w.gates else "W") for i, t in enumerate(tasks))
 
-        i = 0
         while True:
             if ops is not None:
-                if i >= len(ops):
+                if st["i"] >= len(ops):
+                    st["more"] = False
                     break
-                op = ops[i]
-                i += 1
+                op = ops[st["i"]]
+                st["i"] += 1
             else:
-                op = chooser(sorted(w.gates), len(tasks))  # type: ignore[misc]
+                op = chooser(sorted(w.gates), offset + len(tasks))  # type: ignore[misc]
                 if op is None or len(done_ops) > 200:
+                    st["more"] = False
                     break
             done_ops.append(op)
+            if op[0] == "loop":
+                if w.gates or any(not t.done() for t in tasks):
+                    lines.append("bad-op")
+                    continue
+                info["loops"] += 1
+                return  # next segment on a fresh loop
             if op[0] == "spawn" and op[1] in ("p", "b") and (op[1] == "p" or len(op[2]) == 1) \
                     and all(isinstance(r, int) and 0 <= r < len(g) for r in op[2]):
-                tid = len(tasks)
+                tid = offset + len(tasks)
                 info["tasks"].append({"mode": op[1], "reqs": list(op[2]), "outcome": None, "objs": None})
                 tasks.append(loop.create_task(invocation(tid, op[1], list(op[2]))))
             elif op[0] == "open" and isinstance(op[1], int):
@@ -273,9 +285,9 @@ def _direct(g: list[dict], ops: list[list] | None, chooser: Callable | None) -> 
             info["events"] += ev.split(" ") if ev else []
             lines.append(ev + " | " + w.state(phases()))
         info["gates"] = sorted(w.gates)
-        return lines
 
-    lines = _run_on_vloop(main)
+    while st["more"]:
+        _run_on_vloop(main)
     return lines, info, done_ops
 
 
@@ -292,6 +304,9 @@ def explore_direct(g: list[dict], chooser: Callable) -> list[list]:
 
 
 def op_line(op: list) -> str:
+    """The model driver's op line ("" for ops the model does not see)."""
+    if op[0] == "loop":
+        return ""
     if op[0] == "spawn":
         return f"spawn|{op[1]}|{','.join(map(str, op[2]))}"
     if op[0] == "open":
@@ -338,7 +353,21 @@ def run_workflow(case: dict) -> tuple[list[str], list[list], dict]:
             ops.append(op)
             state["open_line"] = True
 
-        ns: dict[str, Any] = {"Workflow": Workflow, "Context": Context, "step": step, "Event": Event,
+        body_gates: dict[int, asyncio.Event] = {}
+
+        async def body() -> None:
+            # a worker's body suspends until the scheduler lets it finish: one worker completes per quiescent
+            # point (the engine keeps finished worker tasks in a set, so simultaneous completions are processed
+            # in an address-dependent order)
+            gate = asyncio.Event()
+            key = state["bodies"] = state.get("bodies", 0) + 1
+            body_gates[key] = gate
+            try:
+                await gate.wait()
+            finally:
+                body_gates.pop(key, None)
+
+        ns: dict[str, Any] = {"BODY": body, "Workflow": Workflow, "Context": Context, "step": step, "Event": Event,
                               "StartEvent": StartEvent, "StopEvent": StopEvent, "Annotated": Annotated, "Obj": Obj,
                               "ORDER": case["order"], "STATE": state, "TOTAL": len(case["order"])}
         for i, d in enumerate(w.desc):
@@ -358,6 +387,7 @@ def run_workflow(case: dict) -> tuple[list[str], list[list], dict]:
             params = "".join(f", p{j}: Annotated[Obj, D{r}]" for j, r in enumerate(wk["reqs"]))
             src.append(f"    @step(num_workers={wk['num_workers']})\n"
                        f"    async def work{k}(self, ev: Work{k}{params}) -> Done:\n"
+                       "        await BODY()\n"
                        "        return Done()\n")
         src.append("    @step\n"
                    "    async def join(self, ctx: Context, ev: Done) -> StopEvent | None:\n"
@@ -394,12 +424,16 @@ def run_workflow(case: dict) -> tuple[list[str], list[list], dict]:
                 w.events.append(f"fin:{tid}:{outcome}")
 
         def hook() -> bool:
-            if w.gates:
-                t = rng.choice(sorted(w.gates))
-                record(["open", t])
-                w.gates[t].set()
-                return True
-            return False
+            cands = [("r", t) for t in sorted(w.gates)] + [("b", i) for i in sorted(body_gates)]
+            if not cands:
+                return False
+            kind, i = rng.choice(cands)
+            if kind == "r":
+                record(["open", i])
+                w.gates[i].set()
+            else:
+                body_gates[i].set()
+            return True
 
         loop.quiescence_hook = hook
         SF.partial = observed
